@@ -640,6 +640,52 @@ def judge_pgl(inp, obs, lr):
     return None
 
 
+def gen_pglform(rng, n):
+    for _ in range(n):
+        kind = rng.choice(["diag", "generic", "orthogonal"])
+        if kind == "diag":
+            Pm = np.diag([math.exp(rng.uniform(-1, 1)) for _ in range(3)])
+        elif kind == "orthogonal":
+            Pm, _ = np.linalg.qr(np.array([[rng.gauss(0, 1) for _ in range(3)] for _ in range(3)]))
+        else:
+            while True:
+                Pm = np.array([[rng.gauss(0, 1) for _ in range(3)] for _ in range(3)])
+                if np.linalg.cond(Pm) < 8:
+                    break
+        yield {"kind": kind, "P": enc_c(Pm), "A": enc_c(fsl2(rng, False, rng.choice(["sl2", "zero"]))),
+               "B": enc_c(fsl2(rng, False, "sl2"))}
+
+
+def run_pglform(inp):
+    Pm, A, B = toarr(inp["P"]), toarr(inp["A"]), toarr(inp["B"])
+    J = np.diag([-1.0, 1, 1])
+    form = Pm.T @ J @ Pm
+    form = (form + form.T) / 2
+    Pi = np.linalg.inv(Pm)
+    SA, SB = Pi @ np.asarray(lie.sl2_to_so21(A)) @ Pm, Pi @ np.asarray(lie.sl2_to_so21(B)) @ Pm
+    rA = np.asarray(lie.o_to_pgl(SA, bilinear_form=form))
+    rB = np.asarray(lie.o_to_pgl(SB, bilinear_form=form))
+    rAB = np.asarray(lie.o_to_pgl(SA @ SB, bilinear_form=form))
+    return {"preserved": float(np.max(np.abs(SA.T @ form @ SA - form))), "rA": rA.tolist(), "rB": rB.tolist(), "rAB": rAB.tolist(),
+            "detA": float(np.linalg.det(rA)), "trA": float(abs(np.trace(rA))), "want_tr": float(abs(np.trace(A))),
+            "cond": float(np.linalg.cond(Pm))}
+
+
+def judge_pglform(inp, obs, lr):
+    tags0 = {"form": inp["kind"]}
+    if "exc" in obs:
+        return {"expected": "o_to_pgl(S, bilinear_form=B)", "observed": obs, "tags": dict(tags0, exc=obs["exc"])}
+    tol = 1e-6 * obs["cond"] ** 2
+    if not finite(obs["rA"]) or abs(obs["detA"] - 1) > tol * (1 + obs["want_tr"] ** 2):
+        return {"expected": "determinant one", "observed": obs, "tags": dict(tags0, site="det")}
+    if abs(obs["trA"] - obs["want_tr"]) > tol * (1 + obs["want_tr"]):
+        return {"expected": "|trace| of A (A is recovered up to sign and conjugation by the isometry between the forms)",
+                "observed": obs, "tags": dict(tags0, site="trace")}
+    if pm_err(obs["rAB"], np.array(obs["rA"]) @ np.array(obs["rB"])) > tol * 10:
+        return {"expected": "o_to_pgl(S·T, B) = ± o_to_pgl(S, B)·o_to_pgl(T, B)", "observed": obs, "tags": dict(tags0, site="hom_up_to_sign")}
+    return None
+
+
 CLAUSES = [
     Clause("irrep_corr", "corr", gen_irrep, run_irrep, judge_irrep, lean=lean_irrep, site="lie.sl2_irrep",
            budget={"quick": 120, "thorough": 3000},
@@ -667,6 +713,10 @@ CLAUSES = [
            budget={"quick": 300, "thorough": 8000},
            what="det sl2_irrep = 1; sl2_to_so21 preserves diag(-1,1,1), det ±1, sl2_iso stores it; sl2c_to_so31 real, preserves "
                 "diag(-1,1,1,1), det 1; sln/gln adjoint preserve the trace (Killing) form; slc_to_slr acts as the complex matrix; block layout"),
+    Clause("pgl_form_oracle", "oracle", gen_pglform, run_pglform, judge_pglform, site="lie.o_to_pgl(bilinear_form=)",
+           budget={"quick": 200, "thorough": 5000},
+           what="o_to_pgl with the bilinear_form option (rescaled axes, generic and orthogonal conjugates of diag(-1,1,1)): values have "
+                "determinant one, |trace| of the original matrix, and products go to products up to sign"),
     Clause("pgl_oracle", "oracle", gen_pgl, run_pgl, judge_pgl, site="lie.o_to_pgl, hyperbolic.Isometry.to_sl2",
            budget={"quick": 400, "thorough": 10000},
            what="o_to_pgl(sl2_to_so21(A)) = ±A and sl2_iso(A).to_sl2() = ±A for det-one (and det -1) A incl. exactly vanishing entries; "
